@@ -8,6 +8,12 @@ real CourierServer over the fake transport; RemoteObject chains, remote
 iterators and remote queues are compared with the local objects; a shutdown is
 requested at every point of a 3-call history in three ways; two clients call
 one server concurrently under a delay-bounded schedule exploration.
+
+Also (see ctx.rule): shutdown requested in the middle of a call; the async
+faces (__anext__, async_get, async_get_batch); arguments whose == is not a bool
+(numpy arrays) and the same expression object sent repeatedly; stop/start
+cycles of the server object; shutdown of a prefetching server while a request
+is pending on a slow endless generator.
 """
 from vmc import charness, explorer
 from vmc.runner import Stats
